@@ -27,6 +27,12 @@
 
 #include <string.h>             /* memset() */
 
+#ifdef KJN_LBZIP2_VERIF
+#include "verif.h"
+extern void (*verif_dump_hook)(FILE *);
+extern void (*verif_check_hook)(void);
+#endif
+
 
 /*
   MEMORY ALLOCATION
@@ -404,6 +410,9 @@ do_parse(void)
   parse_token = 0;
   --work_units;
   true_bitstream = attach(parser_bs);
+#ifdef KJN_LBZIP2_VERIF
+  verif_delay("parse", parser_bs.offset, 0);
+#endif
   rv = parse(&par, &head_blk.hdr, &true_bitstream, &garbage);
   advance(detach(true_bitstream));
   check_invariants();
@@ -561,6 +570,11 @@ do_retrieve(void)
   rb = dequeue(retr_q);
 
   true_bitstream = attach(rb->curr_pos);
+#ifdef KJN_LBZIP2_VERIF
+  verif_delay("retr", rb->curr_pos.offset, rb->unord_link != NULL);
+  verif_delay("retrbase", rb->base.major * (in_granul / 4) +
+              (rb->base.minor >> 32), (rb->base.minor >> 27) & 31u);
+#endif
   rv = retrieve(&rb->ds, &true_bitstream);
   rb->curr_pos = detach(true_bitstream);
 
@@ -661,6 +675,10 @@ do_emit(void)
   check_invariants();
   sched_unlock();
 
+#ifdef KJN_LBZIP2_VERIF
+  verif_delay("emit", eb->base.major * (in_granul / 4) +
+              (eb->base.minor >> 32), (eb->base.minor >> 27) & 31u);
+#endif
   oblk = xmalloc(sizeof(struct out_blk) + out_granul);
   oblk->size = out_granul;
   oblk->blk_sz = eb->ds.block_size;
@@ -767,6 +785,9 @@ do_scan(void)
   }
 
   true_bitstream = attach(*bs);
+#ifdef KJN_LBZIP2_VERIF
+  verif_delay("scan", bs->offset, 0);
+#endif
   scan_result = scan(&true_bitstream, skip);
   *bs = detach(true_bitstream);
 
@@ -876,6 +897,36 @@ on_write_complete(void *buffer)
 }
 
 
+#ifdef KJN_LBZIP2_VERIF
+static unsigned verif_cap_in, verif_cap_wu, verif_cap_out, verif_cap_unord;
+
+static void
+verif_dump_expand(FILE *fp)
+{
+  fprintf(fp, " pt=%d pd=%d in=%u scan=%u retr=%u emit=%u reord=%u order=%u"
+          " unord=%u head=%ju tail=%ju", (int)parse_token, (int)parsing_done,
+          size(input_q), size(scan_q), size(retr_q), size(emit_q),
+          size(reord_q), size(order_q), size(unord_q), head_offs, tail_offs);
+}
+
+static void
+verif_check_expand(void)
+{
+  unsigned i;
+
+  VERIF_ASSERT(size(input_q) <= verif_cap_in);
+  VERIF_ASSERT(size(scan_q) <= verif_cap_in);
+  VERIF_ASSERT(size(retr_q) <= verif_cap_wu);
+  VERIF_ASSERT(size(emit_q) <= verif_cap_wu);
+  VERIF_ASSERT(size(reord_q) <= verif_cap_out);
+  VERIF_ASSERT(size(order_q) <= verif_cap_wu + verif_cap_out);
+  VERIF_ASSERT(size(unord_q) <= verif_cap_unord);
+  VERIF_ASSERT(head_offs <= tail_offs);
+  for (i = 0; i < size(retr_q); i++)
+    VERIF_ASSERT(retr_q.root[i]->curr_pos.offset >= head_offs);
+}
+#endif
+
 static void
 init(void)
 {
@@ -897,12 +948,31 @@ init(void)
 
   parser_bs = bits_init(0);
   parser_init(&par, bs100k, 0);
+#ifdef KJN_LBZIP2_VERIF
+  verif_cap_in = in_slots;
+  verif_cap_wu = work_units;
+  verif_cap_out = out_slots;
+  verif_cap_unord = (work_units + out_slots > UNORD_THRESH ?
+                     work_units + out_slots - UNORD_THRESH : 0);
+  verif_dump_hook = verif_dump_expand;
+  verif_check_hook = verif_check_expand;
+#endif
 }
 
 
 static void
 uninit(void)
 {
+#ifdef KJN_LBZIP2_VERIF
+  VERIF_ASSERT(parsing_done);
+  VERIF_ASSERT(head_offs == tail_offs);
+  VERIF_ASSERT(parse_token);
+  VERIF_ASSERT(empty(scan_q) && empty(unord_q) && empty(order_q));
+  VERIF_ASSERT(empty(reord_q) && empty(emit_q) && empty(retr_q));
+  VERIF_ASSERT(empty(input_q));
+  verif_dump_hook = NULL;
+  verif_check_hook = NULL;
+#endif
   assert(parsing_done);
   assert(head_offs == tail_offs);
   assert(parse_token);
